@@ -53,7 +53,7 @@ def run(ck):
             if parts:
                 ev["parts"] = [term_io.export(x) for x in r]
             else:
-                ev["out"] = term_io.export(r)
+                ev["out"] = term_io.export_result(r)
                 ev["rty"] = term_io.export_type(r.get_type())
                 if r is not f:
                     ck.nontrivial((proc, term_io.term_key(ev["f"])))
